@@ -1762,6 +1762,12 @@ class Circuit(Unitary, StateVectorMap, Collection[Operation]):
             return
 
         self.pop(point)
+
+        # Keep the new operation at the old one's position; past the end,
+        # insert would append it as far left as it fits.
+        if point[0] == self.num_cycles:
+            self._append_cycle()
+
         self.insert(point[0], op)
 
     def batch_replace(
@@ -1791,13 +1797,31 @@ class Circuit(Unitary, StateVectorMap, Collection[Operation]):
         if len(points) != len(ops):
             raise ValueError('Points and Ops have different lengths.')
 
-        points_and_ops = sorted(zip(points, ops), key=lambda x: x[0][0])
-        num_cycles = self.num_cycles
+        # Replace from the last cycle to the first: a replacement can only
+        # add or remove cycles at or after its own, so the points of the
+        # earlier cycles stay valid and no later operation can end up in
+        # front of an earlier one.
+        points = [self.normalize_point(point) for point in points]
+        order = sorted(
+            range(len(points)),
+            key=lambda i: points[i][0],
+            reverse=True,
+        )
 
-        for point, op in points_and_ops:
-            shrink_amount = num_cycles - self.num_cycles
-            shifted_point = (point[0] - shrink_amount, point[1])
-            self.replace(shifted_point, op)
+        for k, i in enumerate(order):
+            num_cycles = self.num_cycles
+            self.replace(points[i], ops[i])
+            num_added = self.num_cycles - num_cycles
+
+            # A cycle inserted in front of this point's cycle pushes
+            # back the other operations still to be replaced in it.
+            if num_added > 0:
+                for j in order[k + 1:]:
+                    if points[j][0] == points[i][0]:
+                        points[j] = CircuitPoint(
+                            points[j][0] + num_added,
+                            points[j][1],
+                        )
 
     def replace_gate(
         self,
